@@ -246,6 +246,9 @@ template<typename FwdC>
 void req_compactor<T, C, A>::merge(FwdC&& other) {
   // TODO: swap if other is larger?
   if (lg_weight_ != other.lg_weight_) throw std::logic_error("weight mismatch");
+  // an odd state makes the next compaction reuse !coin_, which is only fair if coin_ came from a random draw:
+  // when the merged state turns odd without a compaction of this compactor, draw it now
+  if ((state_ & 1) == 0 && (other.state_ & 1) == 1) coin_ = random_utils::random_bit();
   state_ |= other.state_;
   while (ensure_enough_sections()) {}
   ensure_space(other.get_num_items());
